@@ -243,6 +243,21 @@ pub struct Exec<'a> {
     pub deleted_ids: Vec<u64>,
     /// seqno counter observed right before the last close (C11)
     pub seqno_before_close: Option<u64>,
+    /// keys written since the last reopen (filter / replay diagnostics)
+    pub written_since_reopen: std::collections::BTreeSet<(KsIdx, Vec<u8>)>,
+    pub reopened: bool,
+    /// per key: the writes that touched it, in order
+    pub key_hist: BTreeMap<(KsIdx, Vec<u8>), Vec<KeyEvent>>,
+    /// steps at which background work / compaction ran
+    pub maint_steps: Vec<usize>,
+}
+
+#[derive(Clone, Debug)]
+pub struct KeyEvent {
+    pub step: usize,
+    pub value: Option<Vec<u8>>,
+    pub journaled: bool,
+    pub ingested: bool,
 }
 
 macro_rules! viol {
@@ -272,6 +287,10 @@ impl<'a> Exec<'a> {
             tx_initial: None,
             deleted_ids: vec![],
             seqno_before_close: None,
+            written_since_reopen: Default::default(),
+            reopened: false,
+            key_hist: BTreeMap::new(),
+            maint_steps: vec![],
         }
     }
 
@@ -325,14 +344,21 @@ impl<'a> Exec<'a> {
     }
 
     /// Compares a real read result with the model's, honouring the C18 filter model
-    fn compare(&mut self, clause: &str, what: &str, ks: KsIdx, real: &ReadResult, want: &ReadResult) -> Result<(), Violation> {
+    fn compare(&mut self, clause: &str, what: &str, ks: KsIdx, real: &ReadResult, want: &ReadResult, r: &ReadOp) -> Result<(), Violation> {
         if real == want {
             return Ok(());
         }
         if self.is_filtered(ks) {
-            if let Some(()) = self.filter_compatible(ks, real, want) {
+            let keys = self.keys();
+            if self.allowed_maps(ks).iter().any(|m| &model_read(m, keys, r) == real) {
                 return Ok(());
             }
+            viol!(
+                "filter-model",
+                "{what}: real {} is not explained by the last written values {} under any mix of original/filtered forms",
+                real.brief(),
+                want.brief()
+            )
         }
         viol!(
             clause,
@@ -342,46 +368,49 @@ impl<'a> Exec<'a> {
         )
     }
 
-    /// Filter model: a key with verdict remove may be absent, with verdict replace may hold the
-    /// filtered form; once observed filtered it must stay so (checked in check_all).
-    fn filter_compatible(&mut self, _ks: KsIdx, real: &ReadResult, want: &ReadResult) -> Option<()> {
-        fn ok_item(k: &[u8], real_v: Option<&Vec<u8>>, want_v: Option<&Vec<u8>>) -> bool {
-            if real_v == want_v {
-                return true;
+    /// C18: every content a filtered keyspace may legitimately show right now: each key with a
+    /// remove/replace verdict is in its original or its filtered form; keys already observed
+    /// filtered (and not rewritten since) only in the filtered form.
+    fn allowed_maps(&self, ks: KsIdx) -> Vec<Map> {
+        let Some(base) = self.model.map(ks) else { return vec![] };
+        let mut maps = vec![base.clone()];
+        for (k, v) in base {
+            let verdict = k.first().copied().unwrap_or(0) % 3;
+            if verdict == 0 {
+                continue;
             }
-            let Some(w) = want_v else { return false };
-            match k.first().copied().unwrap_or(0) % 3 {
-                0 => false,
-                1 => real_v.is_none(),
-                _ => real_v == Some(&crate::inst::filtered_value(w)),
-            }
-        }
-        match (real, want) {
-            (ReadResult::Items(r), ReadResult::Items(w)) => {
-                // same order of keys with allowed per-key differences; removed keys may be missing
-                let mut ri = r.iter().peekable();
-                for (k, v) in w {
-                    match ri.peek() {
-                        Some((rk, rv)) if rk == k => {
-                            if !ok_item(k, Some(rv), Some(v)) {
-                                return None;
-                            }
-                            ri.next();
-                        }
-                        _ => {
-                            if !ok_item(k, None, Some(v)) {
-                                return None;
-                            }
-                        }
+            let filtered: Option<Vec<u8>> = if verdict == 1 {
+                None
+            } else if v.starts_with(crate::inst::REPLACED_PREFIX) {
+                Some(v.clone())
+            } else {
+                Some(crate::inst::filtered_value(v))
+            };
+            let sticky = self.filter_sticky.contains_key(&(ks, k.clone()));
+            let mut next = vec![];
+            for m in &maps {
+                if !sticky {
+                    next.push(m.clone());
+                }
+                let mut f = m.clone();
+                match &filtered {
+                    Some(fv) => {
+                        f.insert(k.clone(), fv.clone());
+                    }
+                    None => {
+                        f.remove(k);
                     }
                 }
-                if ri.next().is_some() {
-                    return None;
+                if sticky || &f != m {
+                    next.push(f);
                 }
-                Some(())
             }
-            _ => None,
+            maps = next;
+            if maps.len() > 4096 {
+                break;
+            }
         }
+        maps
     }
 
     pub fn step(&mut self, i: usize, op: &Op) -> Result<StepInfo, Violation> {
@@ -404,9 +433,7 @@ impl<'a> Exec<'a> {
             Ok(()) => {
                 let keys = self.keys();
                 apply_write(&mut self.model, keys, op);
-                if self.is_filtered_op(op) {
-                    self.reset_sticky(op);
-                }
+                self.reset_sticky(op);
                 self.commit_history();
                 Ok(StepInfo {
                     acked: true,
@@ -426,12 +453,38 @@ impl<'a> Exec<'a> {
         }
     }
 
-    fn is_filtered_op(&self, _op: &Op) -> bool {
-        !self.cfg.filtered.is_empty()
-    }
-
     fn reset_sticky(&mut self, op: &Op) {
         let keys = self.keys();
+        let step = self.step_no;
+        let mut touch = |me: &mut Self, ks: KsIdx, key: &Vec<u8>, value: Option<Vec<u8>>, ingested: bool| {
+            me.written_since_reopen.insert((ks, key.clone()));
+            me.key_hist.entry((ks, key.clone())).or_default().push(KeyEvent { step, value, journaled: !ingested, ingested });
+        };
+        match op {
+            Op::Insert { ks, key, val } => touch(self, *ks, &keys[*key as usize], Some(val.bytes()), false),
+            Op::Remove { ks, key } | Op::RemoveWeak { ks, key } => touch(self, *ks, &keys[*key as usize], None, false),
+            Op::Batch { items, .. } => {
+                for it in items {
+                    let v = match &it.kind {
+                        BKind::Put(v) => Some(v.bytes()),
+                        _ => None,
+                    };
+                    touch(self, it.ks, &keys[it.key as usize], v, false);
+                }
+            }
+            Op::Ingest { ks, items } => {
+                for (k, v) in items {
+                    touch(self, *ks, &keys[*k as usize], v.as_ref().map(Val::bytes), true);
+                }
+            }
+            Op::Clear { ks } => {
+                let all: Vec<Vec<u8>> = keys.to_vec();
+                for k in all {
+                    touch(self, *ks, &k, None, false);
+                }
+            }
+            _ => {}
+        }
         match op {
             Op::Insert { ks, key, .. } | Op::Remove { ks, key } => {
                 self.filter_sticky.remove(&(*ks, keys[*key as usize].clone()));
@@ -748,7 +801,7 @@ impl<'a> Exec<'a> {
                 let real = read_keyspace(&k, keys, r);
                 let want = model_read(self.model.map(r.ks()).unwrap(), keys, r);
                 self.stats.inc("reads");
-                self.compare("map-equivalence", &format!("{r:?}"), r.ks(), &real, &want)?;
+                self.compare("map-equivalence", &format!("{r:?}"), r.ks(), &real, &want, r)?;
                 Ok(StepInfo::default())
             }
             Op::ViewOpen { slot, kind } => {
@@ -803,7 +856,7 @@ impl<'a> Exec<'a> {
                 if self.model.map(ks) != Some(&f.map) {
                     self.stats.inc("view_reads_after_divergence");
                 }
-                self.compare("frozen-view", &format!("view {slot} {r:?}"), ks, &real, &want)?;
+                self.compare("frozen-view", &format!("view {slot} {r:?}"), ks, &real, &want, r)?;
                 Ok(StepInfo::default())
             }
             Op::IterOpen { slot, src, ks, range } => {
@@ -928,7 +981,10 @@ impl<'a> Exec<'a> {
             Op::MajorCompact { ks } => {
                 let k = ks_or_skip!(*ks);
                 match k.major_compact() {
-                    Ok(()) => self.stats.inc("major_compactions"),
+                    Ok(()) => {
+                        self.maint_steps.push(self.step_no);
+                        self.stats.inc("major_compactions")
+                    }
                     Err(e) => {
                         if self.tolerate_errors {
                             return Ok(StepInfo {
@@ -1094,6 +1150,8 @@ impl<'a> Exec<'a> {
             }
             Op::Reopen => {
                 self.check_all()?;
+                self.written_since_reopen.clear();
+                self.reopened = true;
                 self.close();
                 self.reopen_and_check("close-reopen")?;
                 self.stats.inc("reopens");
@@ -1253,6 +1311,7 @@ impl<'a> Exec<'a> {
         for _ in 0..max {
             match fjall::verif::worker_step(&db) {
                 Ok(Some(desc)) => {
+                    self.maint_steps.push(self.step_no);
                     self.stats.inc("worker_steps");
                     if desc.contains("Flush") {
                         self.stats.inc("worker_flush");
@@ -1299,7 +1358,9 @@ impl<'a> Exec<'a> {
             self.check_option_rows(ks)?;
         }
         self.check_all().map_err(|mut v| {
-            v.clause = clause.to_string();
+            if v.clause == "map-equivalence" {
+                v.clause = clause.to_string();
+            }
             v
         })
     }
@@ -1412,22 +1473,24 @@ impl<'a> Exec<'a> {
                 ops.push(ReadOp::Contains { ks, key: i as u8 });
                 ops.push(ReadOp::SizeOf { ks, key: i as u8 });
             }
-            let filtered = self.is_filtered(ks);
-            // point reads and scans must agree with each other, whatever the model says
-            let scan = read_keyspace(&k, keys, &ops[0]);
-            for r in &ops {
-                let real = read_keyspace(&k, keys, r);
-                let want = model_read(self.model.map(ks).unwrap(), keys, r);
-                if filtered {
-                    self.check_filtered(ks, r, &real, &want, &scan)?;
-                } else if real != want {
-                    viol!(
-                        "map-equivalence",
-                        "cross-check {r:?} on {:?}: real {} but reference model says {}",
-                        self.cfg.names[ks as usize],
-                        real.brief(),
-                        want.brief()
-                    );
+            if self.is_filtered(ks) {
+                self.check_filtered(ks, &k, &ops)?;
+            } else {
+                for r in &ops {
+                    let real = read_keyspace(&k, keys, r);
+                    let want = model_read(self.model.map(ks).unwrap(), keys, r);
+                    if real != want {
+                        let mut detail = format!(
+                            "cross-check {r:?} on {:?}: real {} but reference model says {}",
+                            self.cfg.names[ks as usize],
+                            real.brief(),
+                            want.brief()
+                        );
+                        if let (ReadResult::Items(ri), ReadResult::Items(wi)) = (&real, &want) {
+                            detail.push_str(&self.classify_diff(ks, ri, wi));
+                        }
+                        return Err(Violation::new("map-equivalence", detail));
+                    }
                 }
             }
             self.stats.max("max_tables", k.table_count() as u64);
@@ -1444,59 +1507,110 @@ impl<'a> Exec<'a> {
     }
 
     /// C18 three-valued model for a filtered keyspace
-    fn check_filtered(&mut self, ks: KsIdx, r: &ReadOp, real: &ReadResult, want: &ReadResult, scan: &ReadResult) -> Result<(), Violation> {
+    fn check_filtered(&mut self, ks: KsIdx, k: &Keyspace, ops: &[ReadOp]) -> Result<(), Violation> {
         let keys = self.keys();
-        let ReadResult::Items(scan_items) = scan else {
+        let scan = read_keyspace(k, keys, &ops[0]);
+        let ReadResult::Items(scan_items) = &scan else {
             viol!("filter-model", "scan failed: {}", scan.brief());
         };
-        let scan_map: Map = scan_items.iter().cloned().collect();
-        match r {
-            ReadOp::Get { key, .. } => {
-                let kb = &keys[*key as usize];
-                let ReadResult::Val(rv) = real else {
-                    viol!("filter-model", "get failed: {}", real.brief());
-                };
-                // point read and scan agree
-                if rv.as_ref() != scan_map.get(kb) {
-                    viol!("filter-model", "point read of {} gives {:?} but scan gives {:?}", show(kb), rv.as_ref().map(|x| show(x)), scan_map.get(kb).map(|x| show(x)));
+        let observed: Map = scan_items.iter().cloned().collect();
+        let base = self.model.map(ks).unwrap().clone();
+        // stickiness first, to name the failure precisely
+        for (key, orig) in &base {
+            let verdict = key.first().copied().unwrap_or(0) % 3;
+            if verdict == 0 {
+                continue;
+            }
+            let skey = (ks, key.clone());
+            let now = observed.get(key);
+            let is_orig = now == Some(orig) && !(verdict == 2 && orig.starts_with(crate::inst::REPLACED_PREFIX));
+            if let Some(prev) = self.filter_sticky.get(&skey) {
+                if is_orig {
+                    let after_reopen = !self.written_since_reopen.contains(&skey);
+                    viol!(
+                        if after_reopen { "filter-undone-by-reopen" } else { "filter-resurrected" },
+                        "key {} of filtered keyspace {:?} was observed filtered as {:?} and later reads its original {} without being rewritten{}",
+                        show(key),
+                        self.cfg.names[ks as usize],
+                        prev.as_ref().map(|x| show(x)),
+                        show(orig),
+                        if after_reopen { " (a reopen happened in between: journal replay restored it)" } else { "" }
+                    );
                 }
-                let ReadResult::Val(wv) = want else { unreachable!() };
-                let verdict = kb.first().copied().unwrap_or(0) % 3;
-                let ok = match (verdict, wv, rv) {
-                    (_, w, r) if w == r => true,
-                    (1, Some(_), None) => true,
-                    (2, Some(w), Some(r)) => r == &crate::inst::filtered_value(w),
+            }
+        }
+        if !self.allowed_maps(ks).iter().any(|m| m == &observed) {
+            viol!(
+                "filter-model",
+                "content {} of filtered keyspace {:?} is not explained by the last written values {} under the filter verdicts",
+                scan.brief(),
+                self.cfg.names[ks as usize],
+                ReadResult::Items(base.iter().map(|(a, b)| (a.clone(), b.clone())).collect()).brief()
+            );
+        }
+        for (key, orig) in &base {
+            let verdict = key.first().copied().unwrap_or(0) % 3;
+            if verdict != 0 && observed.get(key) != Some(orig) {
+                if self.filter_sticky.insert((ks, key.clone()), observed.get(key).cloned()).is_none() {
+                    self.stats.inc("probe_filtered_observed");
+                }
+            }
+        }
+        // every read path must agree with the content the scan shows
+        for r in ops {
+            let real = read_keyspace(k, keys, r);
+            let want = model_read(&observed, keys, r);
+            if real != want {
+                let after_reopen = match r {
+                    ReadOp::Get { key, .. } | ReadOp::Contains { key, .. } | ReadOp::SizeOf { key, .. } => {
+                        !self.written_since_reopen.contains(&(ks, keys[*key as usize].clone())) && self.reopened
+                    }
                     _ => false,
                 };
-                if !ok {
-                    viol!("filter-model", "key {} (verdict {verdict}) last written {:?} reads {:?}", show(kb), wv.as_ref().map(|x| show(x)), rv.as_ref().map(|x| show(x)));
-                }
-                // stickiness: once filtered, stays filtered until rewritten
-                let skey = (ks, kb.clone());
-                if wv != rv {
-                    self.filter_sticky.insert(skey, rv.clone());
-                    self.stats.inc("probe_filtered_observed");
-                } else if let Some(prev) = self.filter_sticky.get(&skey) {
-                    if prev != rv {
-                        viol!("filter-model", "key {} was observed filtered as {:?} and later reads {:?} without being rewritten", show(kb), prev.as_ref().map(|x| show(x)), rv.as_ref().map(|x| show(x)));
-                    }
-                }
-                Ok(())
+                viol!(
+                    if after_reopen { "filter-point-scan-after-reopen" } else { "filter-point-scan" },
+                    "filtered keyspace {:?}: {r:?} gives {} but the scan implies {}",
+                    self.cfg.names[ks as usize],
+                    real.brief(),
+                    want.brief()
+                );
             }
-            ReadOp::Scan { .. } => {
-                if real != want && self.filter_compatible(ks, real, want).is_none() {
-                    // compare as forward content
-                    let mut a = match real { ReadResult::Items(v) => v.clone(), _ => vec![] };
-                    let mut b = match want { ReadResult::Items(v) => v.clone(), _ => vec![] };
-                    a.sort();
-                    b.sort();
-                    if self.filter_compatible(ks, &ReadResult::Items(a), &ReadResult::Items(b)).is_none() {
-                        viol!("filter-model", "scan {} is not explained by model {} under the filter", real.brief(), want.brief());
-                    }
-                }
-                Ok(())
-            }
-            _ => Ok(()),
         }
+        Ok(())
+    }
+
+    /// Explains a content difference after a reopen: which write produced a value that should
+    /// not be there (diagnostic suffix used to tell known findings from new violations)
+    fn classify_diff(&self, ks: KsIdx, real: &[(Vec<u8>, Vec<u8>)], want: &[(Vec<u8>, Vec<u8>)]) -> String {
+        let rm: Map = real.iter().cloned().collect();
+        let wm: Map = want.iter().cloned().collect();
+        let mut out = String::new();
+        for (k, rv) in &rm {
+            if wm.get(k) == Some(rv) {
+                continue;
+            }
+            let Some(h) = self.key_hist.get(&(ks, k.clone())) else { continue };
+            // where does the unexpected value come from?
+            let origin = h.iter().rev().find(|e| e.value.as_ref() == Some(rv));
+            let last = h.last();
+            if let (Some(o), Some(l)) = (origin, last) {
+                if o.journaled && l.ingested && l.step > o.step {
+                    let maint_after = self.maint_steps.iter().any(|s| *s > l.step);
+                    if l.value.is_none() && maint_after {
+                        out.push_str(&format!(" [stale-journal-record-after-ingested-tombstone-gc key={}]", show(k)));
+                    } else {
+                        out.push_str(&format!(" [stale-journal-record-superseded-by-ingestion key={}]", show(k)));
+                    }
+                } else {
+                    out.push_str(&format!(" [unexpected value of key {} written at step {}]", show(k), o.step));
+                }
+            }
+        }
+        for k in wm.keys() {
+            if !rm.contains_key(k) {
+                out.push_str(&format!(" [missing key {}]", show(k)));
+            }
+        }
+        out
     }
 }
